@@ -1,5 +1,6 @@
 import Tup.DrvUtil
 import Tup.Model.Placeholder
+import Tup.Model.DisplayArgs
 import Tup.Spec.Term
 import Tup.Spec.Decode
 /-!
@@ -14,6 +15,11 @@ import Tup.Spec.Decode
     dispmode <fewer>                                      -> a256i a256p skip first other
     getfmt none | idx <n> | rgb <r> <g> <b>               -> none | hex
     display <ph> <fewer> none|idx:<n>|rgb:<r>:<g>:<b> <x>:<y>|- <lf> br|tr|tl|bl  -> ok hex   (display_only)
+    dcall <nine> br|tr|tl|bl <obj> <sc> <sr> <ec> <er> <allowExpansion> <fewer> <bg> <x>:<y>|- <lf> br|tr|tl|bl|def|bad
+        -> ok|err_value|err_index <hex written to the display stream> <id>,<pid>,<sc>,<sr>,<ec>,<er>|-
+      (display_only with its argument handling, Model.DisplayArgs.displayCall): <obj> = int:<id> | ph:<id>:<pid>:<sc>:<sr>:<ec>:<er> |
+      inst:<id>:<cols>:<rows>; the overrides <sc>… are integers or `-` (not given); <x>, <y> may be negative; the second
+      token is the terminal object's own default final position, `def` = final_cursor_pos not given, `bad` = an unknown name.
     lines9 / stream9 / display9: the same, answered by the model of the code WITHOUT the D9 repair (blank lines have
       no trailing reset); used by C07/C14, whose properties do not depend on that reset.
   where <ph> = id pid startCol startRow endCol endRow (integers, may be negative),
@@ -145,7 +151,42 @@ def display (nine : Bool) (ph : List String) (fewer bg pos lf fp : String) : Str
       outBytes (if nine then displayOnlyUnrepaired r fewer bg pos lf fp else displayOnly r fewer bg pos lf fp)
   | _, _, _, _, _, _ => "bad"
 
+def fp4? : String → Option FinalPos
+  | "br" => some .bottomRight | "tr" => some .topRight | "tl" => some .topLeft | "bl" => some .bottomLeft | _ => none
+
+def optInt? (s : String) : Option (Option Int) := if s = "-" then some none else s.toInt?.map some
+
+def dispObj? (s : String) : Option DispObj :=
+  match s.splitOn ":" with
+  | ["int", a] => do pure (.int (← a.toInt?))
+  | ["ph", a, b, c, d, e, f] => (parsePh [a, b, c, d, e, f]).map .ph
+  | ["inst", a, c, r] => do pure (.inst (← a.toInt?) (← c.toInt?) (← r.toInt?))
+  | _ => none
+
+def dcall (nine cfg obj sc sr ec er ae fewer bg pos lf fp : String) : String :=
+  let bg? : Option Background := match bg.splitOn ":" with
+    | ["none"] => some .none
+    | ["idx", n] => n.toNat?.map .idx
+    | ["rgb", r, g, bl] => do pure (.rgb (← r.toNat?) (← g.toNat?) (← bl.toNat?))
+    | _ => none
+  let pos? : Option (Option (Int × Int)) := match pos.splitOn ":" with
+    | ["-"] => some none
+    | [x, y] => do pure (some (← x.toInt?, ← y.toInt?))
+    | _ => none
+  let fp? : Option FinalPosArg := if fp = "def" then some .dflt else if fp = "bad" then some .invalid else (fp4? fp).map .named
+  let r? : Option String := do
+    let o := displayCall (← b? nine) (← fp4? cfg) (← dispObj? obj) (← optInt? sc) (← optInt? sr) (← optInt? ec) (← optInt? er)
+      (← b? ae) (← b? fewer) (← bg?) (← pos?) (← b? lf) (← fp?)
+    let st := match o.status with
+      | .ok _ => "ok" | .error .value => "err_value" | .error .index => "err_index"
+    let ret := match o.returned with
+      | some r => s!"{r.imageId},{r.placementId},{r.startCol},{r.startRow},{r.endCol},{r.endRow}"
+      | none => "-"
+    pure s!"{st} {hexOut o.written} {ret}"
+  r?.getD "bad"
+
 def handle : List String → String
+  | ["dcall", nine, cfg, obj, sc, sr, ec, er, ae, fewer, bg, pos, lf, fp] => dcall nine cfg obj sc sr ec er ae fewer bg pos lf fp
   | ["lines", a, b, c, d, e, f, m1, m2, m3, m4, m5, fmt, ne] =>
       match parsePh [a, b, c, d, e, f], parseMode [m1, m2, m3, m4, m5], parseFmt fmt, b? ne with
       | some r, some m, some fm, some ne => if m.valid then outLines (toLines r m fm ne) else errStr .value
